@@ -50,6 +50,8 @@ type EthGen struct {
 	period  uint64
 	pruning bool
 	maxH    uint64
+	sameRoots bool
+	recorded  []*ethtypes.EthHeader
 }
 
 const ethSynthMarker = 0xFE
@@ -157,6 +159,7 @@ type ethSpec struct {
 	badSeal    bool
 	extraLen   int
 	diffStr    string
+	root       []byte
 }
 
 func (g *EthGen) build(s ethSpec) ethtypes.Header {
@@ -199,9 +202,18 @@ func (g *EthGen) build(s ethSpec) ethtypes.Header {
 	if s.badSeal {
 		nonce++
 	}
+	root := crypto.Keccak256([]byte("root"), []byte(fmt.Sprint(number, g.r.Next())))
+	if g.sameRoots && g.r.Chance(50) {
+		// blocks of competing branches at one height with one and the same state root (e.g. empty
+		// blocks of the same miner)
+		root = crypto.Keccak256([]byte("same-root"), []byte(fmt.Sprint(number)))
+	}
+	if s.root != nil {
+		root = s.root
+	}
 	h := ethtypes.Header{
 		ParentHash: ph.Bytes(), UncleHash: uncle.Bytes(), Coinbase: make([]byte, 20),
-		Root:   crypto.Keccak256([]byte("root"), []byte(fmt.Sprint(number, g.r.Next()))),
+		Root:   root,
 		TxHash: gethtypes.EmptyRootHash.Bytes(), ReceiptHash: gethtypes.EmptyRootHash.Bytes(), Bloom: make([]byte, 256),
 		Difficulty: diff.String(), Height: clienttypes.NewHeight(0, number), GasLimit: s.gasLimit, GasUsed: s.gasUsed, Time: t,
 		Extra: extra, MixDigest: crypto.Keccak256([]byte("mix")), Nonce: nonce, BaseFee: bf.String(),
@@ -415,7 +427,42 @@ func (g *EthGen) validSpec(p ethtypes.Header) ethSpec {
 	return ethSpec{parent: p, dt: dt, gasLimit: gl, gasUsed: gu, uncles: g.r.Chance(20)}
 }
 
-func (g *EthGen) Run(nOps int, caseIdx int) {
+// RunSameRootScenario: the scripted history behind known finding F-C18b. Two competing branches
+// hold, at one height, blocks with one and the same state root; the root index then names the
+// wrong block as "main chain block at that height" and a later switch to the other branch leaves
+// a stale consensus state below the fork.
+func (g *EthGen) RunSameRootScenario(caseIdx int) {
+	if !g.setup(caseIdx, 200000) {
+		return
+	}
+	c := g.w.Chains[0]
+	G := g.latest.h
+	mk := func(p ethtypes.Header, root []byte) ethtypes.Header {
+		g.now = p.Time + 20
+		return g.build(ethSpec{parent: p, dt: 13, gasLimit: p.GasLimit, gasUsed: p.GasLimit / 2, root: root})
+	}
+	sub := func(h ethtypes.Header, what string) {
+		g.submit(c, h, true, 0, what+" same-root-scenario")
+	}
+	R2 := crypto.Keccak256([]byte("the-same-state-root"))
+	A1 := mk(G, nil)
+	sub(A1, "A1")
+	A2 := mk(A1, R2)
+	sub(A2, "A2")
+	A3 := mk(A2, nil)
+	sub(A3, "A3")
+	B1 := mk(G, nil)
+	sub(B1, "B1")
+	B2 := mk(B1, R2)
+	sub(B2, "B2")
+	A4 := mk(A3, nil)
+	sub(A4, "A4")
+	N2 := mk(B1, nil)
+	sub(N2, "N2")
+}
+
+// setup creates the client from the first recorded mainnet header
+func (g *EthGen) setup(caseIdx int, period uint64) bool {
 	w := g.w
 	c := w.Chains[0]
 	ck := c.App.TIBCKeeper.ClientKeeper
@@ -425,34 +472,45 @@ func (g *EthGen) Run(nOps int, caseIdx int) {
 	bz, err := os.ReadFile("/repo/modules/tibc/light-clients/09-eth/types/testdata/update_headers.json")
 	if err != nil {
 		w.hit("C18", "cannot-read-recorded-headers")
-		return
+		return false
 	}
-	var recorded []*ethtypes.EthHeader
-	if err := json.Unmarshal(bz, &recorded); err != nil || len(recorded) < 3 {
+	if err := json.Unmarshal(bz, &g.recorded); err != nil || len(g.recorded) < 3 {
 		w.hit("C18", "cannot-parse-recorded-headers")
-		return
+		return false
 	}
-	gen := recorded[0].ToHeader()
+	gen := g.recorded[0].ToHeader()
 	g.base = gen.Height.RevisionHeight
 	g.maxH = g.base
-	g.period = 200000
-	g.pruning = caseIdx%4 == 3
-	if g.pruning {
-		g.period = uint64(60 + g.r.Intn(120))
-	}
+	g.period = period
 	g.now = gen.Time + 20
 	cs := &ethtypes.ClientState{Header: gen, ChainId: 1, ContractAddress: []byte("0x00"), TrustingPeriod: g.period, TimeDelay: 0, BlockDelay: 1}
 	cons := &ethtypes.ConsensusState{Timestamp: gen.Time, Number: gen.Height, Root: gen.Root}
 	ctx := g.ctx(c)
 	if err := ck.CreateClient(ctx, g.name, cs, cons); err != nil {
 		w.hit("C18", "cannot-create-client "+err.Error())
-		return
+		return false
 	}
 	root := &ethNode{h: gen}
 	g.nodes[gen.Hash()] = root
 	g.order = []*ethNode{root}
 	g.latest = root
 	w.emit(fmt.Sprintf("eth.create %s %d %s", g.name, g.period, g.token(gen, true)), "res=ok | "+g.dump(c, ctx))
+	return true
+}
+
+func (g *EthGen) Run(nOps int, caseIdx int) {
+	w := g.w
+	c := w.Chains[0]
+	g.pruning = caseIdx%4 == 3
+	g.sameRoots = os.Getenv("VERIF_ETH_SAMEROOTS") == "1" && caseIdx%2 == 1
+	period := uint64(200000)
+	if g.pruning {
+		period = uint64(60 + g.r.Intn(120))
+	}
+	if !g.setup(caseIdx, period) {
+		return
+	}
+	recorded := g.recorded
 
 	if caseIdx == 0 {
 		// recorded mainnet headers through the real ethash verification: the genuine child, and the same
